@@ -43,7 +43,7 @@ TANTIVY_DIR = os.path.join(_VERIF, 'replay_tantivy')
 TANTIVY_TARGET = os.environ.get('VERIF_REPLAY_TANTIVY_TARGET', '/var/tmp/vpverif-target-replay-tantivy')
 
 
-def run_tantivy(model_bytes, wsconst, text, timeout=120):
+def run_tantivy(model_bytes, wsconst, text, timeout=120, prior=None):
     """native Tantivy token stream of `text` (driver /verif/replay_tantivy, built on demand from /repo's working tree)"""
     if 'tantivy' not in _built:
         env = dict(os.environ)
@@ -54,7 +54,10 @@ def run_tantivy(model_bytes, wsconst, text, timeout=120):
         if p.returncode != 0:
             raise RuntimeError('tantivy replay driver does not build against the current /repo tree:\n' + p.stderr.decode()[-4000:])
         _built['tantivy'] = os.path.join(TANTIVY_TARGET, 'debug', 'vp-replay-tantivy')
-    p = subprocess.run([_built['tantivy']], input=json.dumps({'model': list(model_bytes), 'wsconst': wsconst, 'text': text}).encode(),
+    req = {'model': list(model_bytes), 'wsconst': wsconst, 'text': text}
+    if prior is not None:
+        req['prior'] = prior
+    p = subprocess.run([_built['tantivy']], input=json.dumps(req).encode(),
                        stdout=subprocess.PIPE, stderr=subprocess.PIPE, timeout=timeout)
     if p.returncode != 0:
         return {'crash': p.returncode, 'stderr': p.stderr.decode()[-2000:]}
